@@ -159,6 +159,7 @@ def run(tier, seed, replay=None):
                 val = ((r.full() if isinstance(r, torchtt.TT) else r) * w).sum()
                 l0 = tracked[0][0]; ks = [k for (l, k) in tracked if l is l0]
                 g = torchtt.grad.grad(val, objs[lits.index(l0)], ks)
+                if i % 2 == 1: torchtt.grad.unwatch(objs[lits.index(l0)])      # the usual loop: watch, evaluate, grad, unwatch, then use the gradient - it must still be the gradient
                 gd = torch.autograd.grad((F_dense(*[t.clone().requires_grad_(True) for t in inputs]) * w).sum(), [l._override[k] for (l, k) in tracked if l is l0], allow_unused=True)
                 for gg, gr, k in zip(g, gd, ks):
                     want = gr if gr is not None else torch.zeros(l0.cores[k].shape, dtype=torch.float64)
@@ -227,6 +228,7 @@ def run(tier, seed, replay=None):
             r = x * a_t + x * x
             w = torch.tensor(np.array([rng.randint(-2, 2) for _ in range(int(np.prod(r.full().shape)))]).reshape(r.full().shape), dtype=torch.float64)
             g = torchtt.grad.grad((r.full() * w).sum(), x)
+            if j % 2 == 1: torchtt.grad.unwatch(x)
             leaves = [c.clone().requires_grad_(True) for c in cores0]
             xd = dense_of(leaves, ttm_)
             gd = torch.autograd.grad(((xd * a_d + xd * xd) * w).sum(), leaves, allow_unused=True)
